@@ -1150,13 +1150,22 @@ def path_intervals(body, var_operand, stops, start=0, init=None, limit=20000):
     res = {}
     dead_ends = []
     count = [0]
+    # `uN::try_from(var)`: on its Ok arm var fits in N bits (and the payload IS var), on its Err arm it does not
+    keys = {key}
+    tf = {}
+    for c_ in body.calls:
+        if (c_.name.endswith("TryFrom::try_from") or c_.name.endswith("TryInto::try_into")) and c_.args and operand_key(body, c_.args[0]) == key and not c_.dest["p"]:
+            m_ = re.match(r"^std::result::Result<([ui]\d+|usize),", (c_.t.get("rty") or ""))
+            if m_ and m_.group(1) in INT_RANGES:
+                tf[c_.dest["l"]] = INT_RANGES[m_.group(1)]
+                keys.add(operand_key(body, {"k": "copy", "pl": {"l": c_.dest["l"], "p": [{"k": "downcast", "v": "Ok"}, {"k": "field", "i": 0, "n": "0"}]}}))
 
     def cmp_refine(c, truth, lo, hi):
         ka, kb = operand_key(body, c.a), operand_key(body, c.b)
         op = c.op
-        if ka == key and kb[0] == "const" and kb[1] is not None:
+        if ka in keys and kb[0] == "const" and kb[1] is not None:
             k = int(kb[1])
-        elif kb == key and ka[0] == "const" and ka[1] is not None:
+        elif kb in keys and ka[0] == "const" and ka[1] is not None:
             k = int(ka[1])
             op = {"Lt": "Gt", "Le": "Ge", "Gt": "Lt", "Ge": "Le"}.get(op, op)
         else:
@@ -1202,7 +1211,24 @@ def path_intervals(body, var_operand, stops, start=0, init=None, limit=20000):
                     if l2 <= h2 and tg not in seen:
                         go(tg, l2, h2, seen | {tg})
                 return
-            if c is not None and c.kind == "int" and c.place is not None and operand_key(body, {"k": "copy", "pl": c.place}) == key:
+            if c is not None and c.kind == "enum" and c.place is not None and c.place["l"] in tf and not [p for p in c.place["p"] if p["k"] != "deref"]:
+                tlo, thi = tf[c.place["l"]]
+                names = c.variants
+                done = set()
+                for v, tg in t["arms"]:
+                    nm = names.get(v, v)
+                    l2, h2 = (max(lo, tlo), min(hi, thi)) if nm == "Ok" else ((max(lo, thi + 1), hi) if nm == "Err" else (lo, hi))
+                    done.add(nm)
+                    if l2 <= h2 and tg not in seen:
+                        go(tg, l2, h2, seen | {tg})
+                rest = [n for n in names.values() if n not in done]
+                if rest and t["otherwise"] not in seen:
+                    for nm in rest:
+                        l2, h2 = (max(lo, tlo), min(hi, thi)) if nm == "Ok" else ((max(lo, thi + 1), hi) if nm == "Err" else (lo, hi))
+                        if l2 <= h2:
+                            go(t["otherwise"], l2, h2, seen | {t["otherwise"]})
+                return
+            if c is not None and c.kind == "int" and c.place is not None and operand_key(body, {"k": "copy", "pl": c.place}) in keys:
                 covered = []
                 for v, tg in t["arms"]:
                     k = int(v)
